@@ -1071,7 +1071,7 @@ pub struct C10Family {
 fn c10_base(r: &mut Prng) -> C10Plan {
     C10Plan {
         ep: EpCfg { rwnd: *r.pick(&[1u32, 2, 3, 4]), threshold: *r.pick(&[1u32, 2, 4]), dgram_buf: *r.pick(&[1usize, 8]), stream_buf: 16, bind_buf: *r.pick(&[0usize, 0, 8]), retries: 3, ids: vec![] },
-        link: LinkCfg { window: *r.pick(&[2usize, 8, 1 << 20]), latency_ms: 0, drop_after_close: r.chance(1, 2), ws_client: r.below(2) as u8 },
+        link: LinkCfg { window: *r.pick(&[2usize, 8, 1 << 20]), latency_ms: 0, drop_after_close: r.chance(1, 2), ws_client: r.below(2) as u8, bp_flush: r.chance(1, 2) },
         weights: gen_weights(r),
         peer_rwnd: *r.pick(&[1u32, 2, 4, 16]),
         seqn: vec![],
@@ -1200,7 +1200,7 @@ impl Family for C13Family {
         let pushes = (0..r.below(10)).map(|_| if r.chance(1, 10) { 1 + r.below(4000) } else { 1 + r.below(30) }).collect();
         let plan = C13Plan {
             ep: EpCfg { rwnd, threshold: 1 + r.below(rwnd as usize) as u32, dgram_buf: 8, stream_buf: 4, bind_buf: 0, retries: 3, ids: vec![] },
-            link: LinkCfg { window: *r.pick(&[1usize, 4, 1 << 20]), latency_ms: if r.chance(1, 5) { 10 } else { 0 }, drop_after_close: false, ws_client: r.below(2) as u8 },
+            link: LinkCfg { window: *r.pick(&[1usize, 4, 1 << 20]), latency_ms: if r.chance(1, 5) { 10 } else { 0 }, drop_after_close: false, ws_client: r.below(2) as u8, bp_flush: r.chance(1, 2) },
             weights: gen_weights(r),
             peer_rwnd: *r.pick(&[1u32, 2, 4, 100]),
             rs,
@@ -1285,7 +1285,7 @@ impl Family for C16Family {
                 tail = Some(0);
             }
         }
-        let plan = C16Plan { interval_ms: i_ms, timeout_ms: t_req, delays, tail, link: LinkCfg { window: 1 << 20, latency_ms: 0, drop_after_close: r.chance(1, 2), ws_client: r.below(2) as u8 }, weights: gen_weights(r) };
+        let plan = C16Plan { interval_ms: i_ms, timeout_ms: t_req, delays, tail, link: LinkCfg { window: 1 << 20, latency_ms: 0, drop_after_close: r.chance(1, 2), ws_client: r.below(2) as u8, bp_flush: r.chance(1, 2) }, weights: gen_weights(r) };
         (serde_json::to_value(plan).expect("plan"), seed)
     }
     fn exec(&self, plan: &Value, sched: &Sched, record: bool) -> Outcome {
@@ -1475,7 +1475,7 @@ impl Family for C07RawFamily {
         let space = 2 + r.below(6);
         let plan = C07RawPlan {
             ep: EpCfg { rwnd: 4, threshold: 2, dgram_buf: 8, stream_buf: 4, bind_buf: 0, retries, ids: if r.chance(1, 2) { (0..30).map(|_| r.below(space + 1) as u32).collect() } else { vec![] } },
-            link: LinkCfg { window: *r.pick(&[1usize, 8, 1 << 20]), latency_ms: 0, drop_after_close: false, ws_client: 0 },
+            link: LinkCfg { window: *r.pick(&[1usize, 8, 1 << 20]), latency_ms: 0, drop_after_close: false, ws_client: 0, bp_flush: r.chance(1, 2) },
             weights: gen_weights(r),
             reject: r.below(retries * opens + 2),
             peer_rwnd: *r.pick(&[1u32, 4, 100]),
